@@ -9,7 +9,7 @@ import sys
 from vlib import common
 
 N = {"quick": 500, "thorough": 12000}
-FLOW_MODELS = ("msl",)      # dialects whose statement writer has a Lean model (Naga.Model.CFlow)
+FLOW_MODELS = ("msl", "hlsl", "glsl")      # dialects whose statement writer has a Lean model (Naga.Model.CFlow)
 
 
 def unq(s):
@@ -307,7 +307,7 @@ def run(ck, dialect, prop_module, glsl_ub_excluded=False):
                   "Go harness: generator, cparse (independent parser of the emitted text), probes"]
     if not ck.build_harness():
         return
-    proved = regenerate_and_prove(ck, [prop_module] + (["Naga.Props.CFlow"] if dialect in FLOW_MODELS else []))
+    proved = regenerate_and_prove(ck, [prop_module] + (["Naga.Props.CFlow"] if dialect == "msl" else ["Naga.Props.CFlowF"]))
     if not ck.driver():
         return
     n = N.get(ck.tier, N["quick"])
